@@ -118,6 +118,10 @@ class WaitGate(raw_types.Gate):
         return f'WaitGate({self.duration})'
 
     def __repr__(self) -> str:
+        if any(d != 2 for d in self._qid_shape):
+            return f'cirq.WaitGate({repr(self.duration)}, qid_shape={self._qid_shape!r})'
+        if len(self._qid_shape) != 1:
+            return f'cirq.WaitGate({repr(self.duration)}, num_qubits={len(self._qid_shape)})'
         return f'cirq.WaitGate({repr(self.duration)})'
 
     def _json_dict_(self) -> dict[str, Any]:
